@@ -69,6 +69,8 @@ def search(tier, rng):
                 k += 1
                 yield J('p_ell_c06', 4, -6, w, h, *st)
                 yield J('p_rect_c06', 4, -6, w, h, *st)
+    for st in styles(4):
+        yield J('p_style_api', *st)
     n = 500 if quick else 8000
     for _ in range(n):
         x, y = coord(rng), coord(rng)
@@ -93,7 +95,9 @@ RULE = ('Rectangle/Circle/Ellipse: correspondence of styled draw() (pixel map on
         'wide strokes and shapes partly outside the target. search: the C06 predicate itself on the code - the pixel maps of draw() '
         '(both targets) and pixels() equal "fill colour on fill_area().contains, stroke colour on stroke_area().contains minus fill area if '
         'width > 0", pixels() yields no point twice, the areas equal the documented grow/shrink rule recomputed independently, an inside '
-        'stroke stays inside and an outside stroke stays outside. non-trivial = something is painted.')
+        'stroke stays inside and an outside stroke stays outside; p_style_api + every styled suite: the style API entry points (PrimitiveStyle::new / '
+        'default / with_fill / with_stroke, PrimitiveStyleBuilder::new / default / From<&style> / every setter and reset_*, StrokeAlignment::default, '
+        'Styled::new vs into_styled) agree with the field-by-field value and draw the same image. non-trivial = something is painted.')
 EXHAUSTIVE = {'quick': False, 'thorough': False}
 ASSUMPTIONS = ['coordinates, extents and stroke width within 2^27 (no saturating operation of the model is reached, also not in the '
                'stroke area); the saturating branch of the width split itself is covered for every u32 width by C06_stroke_split_saturating and '
